@@ -157,6 +157,28 @@ func runCBC(c cbcCase, r *pb.Rec) error {
 	if err != nil || !bytes.Equal(dec, c.Plain) {
 		return fmt.Errorf("Decrypt(Encrypt(p)) = %x, %v want %x", dec, err, c.Plain)
 	}
+	if !c.StrForm {
+		buf := append([]byte(nil), enc...)
+		for round := 0; round < 2; round++ {
+			if d, e := cryptz.Decrypt(buf, secret); e != nil || !bytes.Equal(d, c.Plain) {
+				return fmt.Errorf("Decrypt #%d of the same []byte message = %x, %v want %x (was the caller's buffer modified?)", round+1, d, e, c.Plain)
+			}
+		}
+		if len(c.Secret) > 0 && len(c.Plain) > 0 {
+			sb := append([]byte(nil), c.Secret...)
+			enc2, e := cryptz.Encrypt(c.Plain, sb)
+			if e != nil {
+				return fmt.Errorf("Encrypt: %v", e)
+			}
+			sb[len(c.Plain)%len(sb)] ^= 0x41
+			raw2, _ := base64.StdEncoding.DecodeString(string(enc2))
+			want2, ok2 := refDecryptCBC(raw2, sb)
+			d, e := cryptz.Decrypt(enc2, sb)
+			if ok2 != (e == nil) || (ok2 && !bytes.Equal(d, want2)) {
+				return fmt.Errorf("Decrypt after the secret buffer was changed in place: %x, %v; reference decoder with the new secret: %x, ok=%v (stale cached key?)", d, e, want2, ok2)
+			}
+		}
+	}
 	// (b) a message built independently (drawn salt) is accepted
 	msg := base64.StdEncoding.EncodeToString(refEncryptCBC(c.Plain, c.Secret, c.Salt))
 	dec, err = cryptz.Decrypt(msg, c.Secret)
@@ -324,6 +346,31 @@ func runGCM(c gcmCase, r *pb.Rec) error {
 	case 0:
 		if err != nil || !bytes.Equal(dec, c.Plain) {
 			return fmt.Errorf("GCMDecrypt(GCMEncrypt(p)) = %x, %v want %x", dec, err, c.Plain)
+		}
+		if !c.StrForm {
+			// the caller's buffers stay the caller's: the same message buffer decrypts again ...
+			buf := append([]byte(nil), enc...)
+			for round := 0; round < 2; round++ {
+				if d, e := cryptz.GCMDecrypt(buf, c.Secret, c.AAD); e != nil || !bytes.Equal(d, c.Plain) {
+					return fmt.Errorf("GCMDecrypt #%d of the same []byte message = %x, %v want %x (was the caller's buffer modified?)", round+1, d, e, c.Plain)
+				}
+			}
+			// ... and a secret buffer changed in place afterwards is a different secret
+			if len(c.Secret) > 0 {
+				sb := append([]byte(nil), c.Secret...)
+				enc2, e := cryptz.GCMEncrypt(c.Plain, sb, c.AAD)
+				if e != nil {
+					return fmt.Errorf("GCMEncrypt: %v", e)
+				}
+				if d, e := cryptz.GCMDecrypt(append([]byte(nil), enc2...), sb, c.AAD); e != nil || !bytes.Equal(d, c.Plain) {
+					return fmt.Errorf("GCMDecrypt with the same secret buffer = %x, %v", d, e)
+				}
+				sb[c.N%len(sb)] ^= 0x41
+				if _, e := cryptz.GCMDecrypt(append([]byte(nil), enc2...), sb, c.AAD); e == nil {
+					return fmt.Errorf("GCMDecrypt succeeded although the secret buffer was changed in place after the previous call (stale cached key?)")
+				}
+				r.Class("secret buffer mutated in place")
+			}
 		}
 		// upper-case hex is the same decoded message
 		if dec2, e2 := cryptz.GCMDecrypt(bytes.ToUpper(enc), c.Secret, c.AAD); e2 != nil || !bytes.Equal(dec2, c.Plain) {
@@ -679,7 +726,7 @@ func init() {
 	pb.Register("cbc_garbage", pb.Options{Base: 8000, Required: []string{"garbage passes the header check", "truncated message", "accepted by both"},
 		Rule: "arbitrary text (base64/hex-looking/any), valid header + garbage body, every truncation length and single-character changes of valid messages, base64 of arbitrary raw bytes; oracle: Decrypt errors <=> the reference decoder rejects, equal plaintext otherwise, never a panic; non-trivial = non-empty input"},
 		genGarb, runGarb)
-	pb.Register("gcm_envelope", pb.Options{Base: 5000, Required: []string{"magic byte flipped", "salt byte flipped", "ciphertext byte flipped", "tag byte flipped", "secret differs", "aad differs", "truncated"},
+	pb.Register("gcm_envelope", pb.Options{Base: 5000, Required: []string{"magic byte flipped", "salt byte flipped", "ciphertext byte flipped", "tag byte flipped", "secret differs", "aad differs", "truncated", "secret buffer mutated in place"},
 		Rule: "GCM round trip and interop with an independent builder; corruption applied at the decoded-byte level (bit flip in magic/salt/ciphertext/tag), different secret, different AAD, truncated hex text, garbage; oracle: decrypt fails for every difference; non-trivial = corruption case"},
 		genGCM, runGCM)
 	pb.Register("stream", pb.Options{Base: 5000, Required: []string{"plaintext larger than the copy buffer", "short header read", "EOF with data", "header arrives with EOF", "(0,nil) first read", "I/O fault during encryption", "I/O fault during decryption"},
